@@ -199,7 +199,7 @@ def check(ctx):
         r = run(gf, {1: Val("ref", sc_val(prog, v))})
         got = repr(r.ret) if r.kind == "return" else r.kind
         exp_token = v == "Http01"
-        ctx.require(R3, ("TOKEN" in got) == exp_token and (exp_token or "String::new" in got), "%s:%s" % (gf.file, gf.line), "get_file_name(%s) = %s" % (v, got), [SC + "::get_file_name", v])
+        ctx.require(R3, ("TOKEN" in got) == exp_token and (exp_token or "String::new" in got or got == "str('')"), "%s:%s" % (gf.file, gf.line), "get_file_name(%s) = %s" % (v, got), [SC + "::get_file_name", v])
     for h in hooks:
         fn = arg_origins(h, 1)
         ctx.require(R3, any(x.is_(SC + "::get_file_name") for x in fn.calls), h.where(), "file_name handed to the hooks = challenge.get_file_name()", [RC, "file-name"])
@@ -265,7 +265,7 @@ def proofs(ctx):
         return None
 
     exp = {"Http01": (r"^\?KA$", "None"), "Dns01": (r"^\?B64\(\?HASH\[BaseHashFunction::Sha256\]\(\?KA\)\)$", "None"),
-           "TlsAlpn01": (r"must_use|format", r"B64\(\?HASH\[BaseHashFunction::Sha256\]\(\?KA\)\)"), "Unknown": (r"String::new", "None")}
+           "TlsAlpn01": (r"must_use|format", r"B64\(\?HASH\[BaseHashFunction::Sha256\]\(\?KA\)\)"), "Unknown": (r"String::new|^str\(''\)$", "None")}
     for v in prog.adt_variants(SC):
         r = run(gp, {1: Val("ref", sc_val(prog, v)), 2: Val("ref", marker("KEY"))}, model)
         good = False
@@ -289,9 +289,34 @@ def proofs(ctx):
         got = c.get("str", c.get("int"))
         ctx.require(R4, got == val, "acmed/src/acme_proto/structs/authorization.rs", "%s = %r (RFC 8737: id-pe-acmeIdentifier 1.3.6.1.5.5.7.1.31, DER OCTET STRING 0x04)" % (nm, got), ["authorization", nm])
     used = {c.get("item") for blk in gp.blocks for st in blk["stmts"] if st["s"] == "assign" for o in [st["rv"].get("op")] if isinstance(o, dict) for c in [o.get("const")] if c}
-    pieces = format_literals(gp)
-    ctx.require(R4, "critical," in "".join(pieces) and "=" in pieces or any("=" == p for p in pieces), "%s:%s" % (gp.file, gp.line),
-                "tls-alpn-01 text = <oid>=critical,DER:04:<len>:<hex> (format literals %s)" % pieces, [SC + "::get_proof", "template"])
+    # the tls-alpn-01 text, EVALUATED for a concrete 32-byte digest (values below 0x10 included, so the zero padding shows)
+    digest = [(i * 37 + 5) & 0xff for i in range(32)]
+    from ..absint import vint
+
+    def model_c(cs, args):
+        n = cs.name
+        if n.endswith("::hash") and "HashFunction" in n or n.endswith("BaseHashFunction>::hash"):
+            return Val("list", [vint(x) for x in digest])
+        if cs.fn == "core::iter::traits::iterator::Iterator::next":
+            return None
+        return model(cs, args)
+    text = None
+    try:
+        r = run(gp, {1: Val("ref", sc_val(prog, "TlsAlpn01")), 2: Val("ref", marker("KEY"))}, model_c, max_steps=60000)
+        if r.kind == "return":
+            rv = r.ret.deref()
+            if rv.k == "adt" and rv.extra[1] == "Ok" and rv.v and rv.v[0].deref().k == "tuple" and rv.v[0].deref().v[0].deref().k == "str":
+                text = rv.v[0].deref().v[0].deref().v
+    except Exception:
+        text = None
+    if text is not None:
+        want = "1.3.6.1.5.5.7.1.31=critical,DER:04:%02x:%s" % (len(digest), ":".join("%02x" % x for x in digest))
+        ctx.require(R4, text == want, "%s:%s" % (gp.file, gp.line), "tls-alpn-01 extension text for a sample digest evaluates to the RFC 8737 form (got %s)" % text[:60],
+                    [SC + "::get_proof", "text"])
+    else:
+        pieces = format_literals(gp)
+        ctx.require(R4, "critical," in "".join(pieces) and "=" in pieces or any("=" == p for p in pieces), "%s:%s" % (gp.file, gp.line),
+                    "tls-alpn-01 text = <oid>=critical,DER:04:<len>:<hex> (format literals %s)" % pieces, [SC + "::get_proof", "template"])
     ka = prog.must_body(TC + "::key_authorization")
 
     def model2(cs, args):
